@@ -115,6 +115,33 @@ func mkBoth(h uint64, s string) key {
 		hash: true, bs: []byte(s), cmp: true}
 }
 
+// genKey: a string / []byte / Bs key of n bytes whose content is a fixed function of (n, fill); the
+// trace names it by (n, fill) instead of spelling thousands of bytes out (type tags of their own).
+func genKey(form, n, fill int) key {
+	b := make([]byte, n)
+	for i := range b {
+		b[i] = byte(fill + i*7)
+	}
+	id := []int{n, fill}
+	switch form {
+	case 0:
+		return key{v: string(b), t: "strgen", id: id, hash: true, bs: b, cmp: true}
+	case 1:
+		return key{v: b, t: "bytesgen", id: id, hash: true, bs: b}
+	}
+	return key{v: bsKey{string(b)}, t: "bsgen", id: id, hash: true, bs: b, cmp: true}
+}
+
+// lengths k*2^j and +-1 around the block sizes on the hash route: ToBytes widths 1/2/4/8, xxhash's
+// 4/8/16-byte tails and 32-byte stripes, and the usual buffer sizes above
+func blockLens() []int {
+	var ls []int
+	for _, p := range []int{4, 8, 16, 32, 64, 96, 128, 256, 1024, 4096} {
+		ls = append(ls, p-1, p, p+1)
+	}
+	return ls
+}
+
 // the key as the spec's record [t, b]: type tag + identity under Go equality
 func (k key) routeRec(op string) tr.E { return tr.E{"t": k.t, "b": k.id} }
 
@@ -215,7 +242,7 @@ func (r *router) reuse(k key) key {
 		return k
 	}
 	if r.scratch == nil {
-		r.scratch = make([]byte, 256)
+		r.scratch = make([]byte, 10000)
 	}
 	if len(b) > len(r.scratch)/2 {
 		return k
@@ -453,8 +480,15 @@ func routeTrace(w *tr.W, rng *rand.Rand, n, nrand int, src string) int {
 			}
 		}
 	}
+	// lengths around internal block sizes (every third routing trace, forms rotating)
+	if r.n%3 == 1 || src == "default" {
+		for i, l := range blockLens() {
+			k := genKey((i+r.n)%3, l, 1+rng.Intn(200))
+			jobs = append(jobs, func() { r.xhash(k) }, func() { r.simple(k) })
+		}
+	}
 	// nil byte slice is a supported []byte
-	jobs = append(jobs, func() { r.xhash(bytesKey(nil)) })
+	jobs = append(jobs, func() { r.xhash(bytesKey(nil)) }, func() { r.simple(bytesKey(nil)) })
 	// ask half of everything a second time, then shuffle the lot
 	m := len(jobs)
 	for i := 0; i < m/2; i++ {
@@ -488,7 +522,7 @@ type vDeep struct { // a struct that holds a slice: not comparable either
 	L  []int
 }
 
-const nMapKinds = 9
+const nMapKinds = 10
 
 func mkVal(kind, id int) (interface{}, int) {
 	switch kind {
@@ -509,6 +543,8 @@ func mkVal(kind, id int) (interface{}, int) {
 		return func() int { return id }, id*16 + 7
 	case 8:
 		return nil, 8
+	case 10:
+		return (*int)(nil), 10 // a typed nil pointer is a value like any other (and is not == nil)
 	}
 	return vDeep{id, []int{id}}, id*16 + 9
 }
@@ -529,7 +565,7 @@ func decVal(x interface{}) int {
 		return y.ID*16 + 3
 	case *int:
 		if y == nil {
-			return -1
+			return 10
 		}
 		return *y*16 + 4
 	case []string:
@@ -570,7 +606,7 @@ func (svSlice) Size() int { return 1 }
 func (svMap) Size() int   { return 1 }
 func (svFunc) Size() int  { return 1 }
 
-const nLRUKinds = 5
+const nLRUKinds = 6
 
 func mkLRUVal(kind, id int) (cache.Value, int) {
 	switch kind {
@@ -582,6 +618,8 @@ func mkLRUVal(kind, id int) (cache.Value, int) {
 		return svSlice{id}, id*16 + 3
 	case 4:
 		return svMap{"id": id}, id*16 + 4
+	case 6:
+		return (*svPtr)(nil), 6
 	}
 	return svFunc(func() int { return id }), id*16 + 5
 }
@@ -592,7 +630,7 @@ func decLRUVal(x cache.Value) int {
 		return y.id*16 + 1
 	case *svPtr:
 		if y == nil {
-			return -1
+			return 6
 		}
 		return y.id*16 + 2
 	case svSlice:
@@ -614,6 +652,9 @@ func decLRUVal(x cache.Value) int {
 // which kind the value with id v has in this history
 func (c conf) kindOf(v, nkinds int) int {
 	k := (v*c.vmul + c.voff) % nkinds
+	if c.vmul == 2 && c.sets != nil {
+		k = (int(atomic.LoadInt64(c.sets)) + c.voff) % nkinds
+	}
 	if k < 0 {
 		k += nkinds
 	}
@@ -637,6 +678,7 @@ type mapStore struct {
 func (s mapStore) encOf(v int) int { _, e := mkVal(s.c.kindOf(v, nMapKinds), v); return e }
 func (s mapStore) set(k interface{}, v int) int {
 	x, enc := mkVal(s.c.kindOf(v, nMapKinds), v)
+	defer atomic.AddInt64(s.c.sets, 1)
 	s.m.Set(k, x)
 	return enc
 }
@@ -658,6 +700,7 @@ type lruStore struct {
 func (s lruStore) encOf(v int) int { _, e := mkLRUVal(s.cf.kindOf(v, nLRUKinds), v); return e }
 func (s lruStore) set(k interface{}, v int) int {
 	x, enc := mkLRUVal(s.cf.kindOf(v, nLRUKinds), v)
+	defer atomic.AddInt64(s.cf.sets, 1)
 	s.c.Set(k, x)
 	return enc
 }
@@ -685,6 +728,7 @@ type tinyStore struct {
 func (s tinyStore) encOf(v int) int { _, e := mkVal(s.cf.kindOf(v, nMapKinds), v); return e }
 func (s tinyStore) set(k interface{}, v int) int {
 	x, enc := mkVal(s.cf.kindOf(v, nMapKinds), v)
+	defer atomic.AddInt64(s.cf.sets, 1)
 	s.c.Set(k, x)
 	return enc
 }
@@ -716,7 +760,9 @@ type conf struct {
 	n       int   // shard count; 0 = no remap option at all (the default prime)
 	capa    int64 // LRU facades: total capacity
 	vmul    int   // kind of the value stored for value id v: kinds[(v*vmul + voff) % len(kinds)]
-	voff    int   //   vmul = 0: one kind throughout the history, 1: kinds mixed
+	voff    int   //   vmul = 0: one kind throughout the history, 1: kinds mixed by value id,
+	//   2: the kind moves on with every Set (sequential histories): one id under many kinds
+	sets *int64
 }
 
 func (c conf) shards() int {
@@ -771,6 +817,7 @@ func newStoreC(c conf) (s store, note string) {
 	if c.n != 0 {
 		opts = append(opts, remap.WithPrime(uint64(c.n)))
 	}
+	c.sets = new(int64)
 	switch c.variant {
 	case "single":
 		return mapStore{cache.NewSingleMap(), c}, ""
@@ -835,7 +882,7 @@ func call(s store, op string, k key, v int, alt bool) (rec tr.E, r tr.E) {
 }
 
 // concrete keys for the abstract keys 1..6 of a plan
-const nSchemes = 10
+const nSchemes = 11
 
 func schemeKey(scheme, j, n int, x bool) key {
 	N := uint64(n)
@@ -874,6 +921,23 @@ func schemeKey(scheme, j, n int, x bool) key {
 		return mkBoth(7, fmt.Sprintf("s%d", j))
 	case 8:
 		return mkBs(fmt.Sprintf("b%d", j))
+	case 10: // degenerate keys: empty string, empty Bs, zero of several kinds, one NUL byte
+		switch (j - 1) % 6 {
+		case 0:
+			return strKey("")
+		case 1:
+			return mkBs("")
+		case 2:
+			return mkInt(8, 0)
+		case 3:
+			return mkInt(0, 0)
+		case 4:
+			return strKey("\x00")
+		}
+		if x {
+			return mkBoth(0, "")
+		}
+		return mkHit(0)
 	}
 	// 9: one "1", six kinds of key
 	switch (j - 1) % 6 {
@@ -1034,6 +1098,23 @@ func runRaces(w *tr.W, rng *rand.Rand, rounds, keep int) (int, int) {
 			kept++
 			continue
 		}
+		// shape of the container the goroutines meet: never used (most rounds), emptied again by
+		// removals, holding exactly one entry
+		var pre []tr.E
+		switch r % 5 {
+		case 3:
+			for j, k := range pool {
+				rec, rep := call(s, "set", k, 900+j, false)
+				pre = append(pre, tr.E{"ev": "call", "a": rec, "r": rep})
+			}
+			for _, k := range pool {
+				rec, rep := call(s, "del", k, 0, false)
+				pre = append(pre, tr.E{"ev": "call", "a": rec, "r": rep})
+			}
+		case 4:
+			rec, rep := call(s, "set", pool[rng.Intn(len(pool))], 900, false)
+			pre = append(pre, tr.E{"ev": "call", "a": rec, "r": rep})
+		}
 		pendReset.Store(rst)
 		type sev struct {
 			seq int64
@@ -1093,6 +1174,9 @@ func runRaces(w *tr.W, rng *rand.Rand, rounds, keep int) (int, int) {
 		}
 		kept++
 		w.Emit(rst)
+		for _, e := range pre {
+			w.Emit(e)
+		}
 		for _, x := range all {
 			w.Emit(x.e)
 		}
@@ -1347,6 +1431,207 @@ func runPressure(w *tr.W, rng *rand.Rand, rounds int) {
 	}
 }
 
+// Long runs around integer widths: one idempotent call issued n times in a row (n around 2^8 and
+// 2^16), logged as ONE run-length encoded event: first reply + whether all n replies were equal.
+var runLens = []int{255, 256, 257, 65535, 65536, 65537}
+
+func sameE(a, b tr.E) bool { return fmt.Sprint(a) == fmt.Sprint(b) }
+
+func runLong(w *tr.W, rng *rand.Rand, c conf, lens []int) {
+	s := open(w, c, "map", "longrun", 1, 0)
+	if s == nil {
+		return
+	}
+	pool := []key{schemeKey(0, 1, c.shards(), isX(c.variant)), schemeKey(3, 2, c.shards(), isX(c.variant))}
+	if c.room() < 2 {
+		pool = pool[:1]
+	}
+	for _, n := range lens {
+		k := pool[rng.Intn(len(pool))]
+		op := []string{"set", "get", "exist"}[rng.Intn(3)]
+		v := 1 + rng.Intn(1000)
+		var rec, first tr.E
+		same := true
+		for i := 0; i < n; i++ {
+			// a run of Sets stores a new value id every time: the last one must be what stays
+			a, rep := call(s, op, k, v+i, false)
+			if i == 0 {
+				first = rep
+			} else if !sameE(rep, first) {
+				same = false
+			}
+			rec = a
+		}
+		w.Emit(tr.E{"ev": "run", "a": rec, "r": first, "n": n, "same": same})
+		// and what a reader sees afterwards
+		a, rep := call(s, "get", k, 0, false)
+		w.Emit(tr.E{"ev": "call", "a": a, "r": rep})
+	}
+}
+
+// routing: the same question n times on one instance
+func routeLong(w *tr.W, rng *rand.Rand, n int, lens []int) {
+	rm, numbs, cnote := newReMap(n)
+	w.Emit(tr.E{"ev": "reset", "kind": "routelong", "threads": 1, "shards": n, "numbs": numbs, "src": "longrun", "note": cnote})
+	if rm == nil {
+		return
+	}
+	for _, cnt := range lens {
+		var k key
+		switch rng.Intn(4) {
+		case 0:
+			k = mkInt(rng.Intn(10), rng.Uint64())
+		case 1:
+			k = strKey(fmt.Sprintf("user:%d", rng.Intn(1000)))
+		case 2:
+			k = bytesKey(randBytes(rng, 1+rng.Intn(40)))
+		default:
+			k = mkBoth(rng.Uint64(), "b")
+		}
+		op := []string{"simple", "xhash"}[rng.Intn(2)]
+		same, inmut := true, true
+		first := 0
+		note := ""
+		for i := 0; i < cnt; i++ {
+			tick()
+			g := guardInput(k)
+			var idx int
+			var nt string
+			if op == "simple" {
+				idx, nt = index(func() int { return rm.SimpleIndex(k.v) })
+			} else {
+				idx, nt = index(func() int { return rm.XHashIndex(k.v) })
+			}
+			inmut = inmut && g()
+			if i == 0 {
+				first, note = idx, nt
+			} else if idx != first {
+				same = false
+			}
+		}
+		e := idxEvent(op, k.routeRec(op), 0, first, inmut, note)
+		e["ev"], e["n"], e["same"] = "idxrun", cnt, same
+		w.Emit(e)
+	}
+}
+
+// State that survives reconfiguration: several routers / containers of DIFFERENT configurations are
+// alive at once and get the same questions / calls alternately (A, B, back to A, a second A); what
+// each configuration answered is written as a trace of its own (same shard count: one trace).
+func routeInterleaved(w *tr.W, rng *rand.Rand, rounds int) {
+	for r := 0; r < rounds; r++ {
+		ns := [][]int{{2, 3, 2}, {73, 1, 0}, {256, 255, 256}, {3, 100003, 3}, {1, 2, 1}}[r%5]
+		type inst struct {
+			n   int
+			rm  *remap.ReMap
+			evs []tr.E
+		}
+		byN := map[int]*[]tr.E{}
+		var order []int
+		var insts []inst
+		for _, n := range ns {
+			rm, _, _ := newReMap(n)
+			if n == 0 {
+				n = int(remap.DefaultPrime)
+			}
+			if rm == nil {
+				continue // a panicking constructor is reported by the routing traces
+			}
+			if byN[n] == nil {
+				byN[n] = new([]tr.E)
+				order = append(order, n)
+			}
+			insts = append(insts, inst{n: n, rm: rm})
+		}
+		ps := patterns(rng, 73, 4)
+		for q := 0; q < 12; q++ {
+			p := ps[rng.Intn(len(ps))]
+			var k key
+			op := []string{"simple", "xhash", "search"}[rng.Intn(3)]
+			switch rng.Intn(3) {
+			case 0:
+				k = mkInt(rng.Intn(10), p)
+			case 1:
+				k = strKey(fmt.Sprintf("user:%d", rng.Intn(100)))
+			default:
+				k = bytesKey(randBytes(rng, rng.Intn(12)))
+			}
+			for _, in := range insts {
+				tick()
+				in := in
+				var e tr.E
+				if op == "search" {
+					i, note := index(func() int { return in.rm.SearchIndex(p) })
+					e = idxEvent("search", tr.E{"t": "hash", "b": tr.Limbs(p)}, p, i, true, note)
+				} else {
+					g := guardInput(k)
+					var i int
+					var note string
+					if op == "simple" {
+						i, note = index(func() int { return in.rm.SimpleIndex(k.v) })
+					} else {
+						i, note = index(func() int { return in.rm.XHashIndex(k.v) })
+					}
+					e = idxEvent(op, k.routeRec(op), 0, i, g(), note)
+				}
+				*byN[in.n] = append(*byN[in.n], e)
+			}
+		}
+		for _, n := range order {
+			w.Emit(tr.E{"ev": "reset", "kind": "routemix", "threads": 1, "shards": n, "numbs": n, "src": "interleaved", "note": ""})
+			for _, e := range *byN[n] {
+				w.Emit(e)
+			}
+		}
+	}
+}
+
+func mapsInterleaved(w *tr.W, rng *rand.Rand, rounds int) {
+	for r := 0; r < rounds; r++ {
+		va := variants[1+r%6]
+		vb := variants[1+(r+1+r/6)%6]
+		cs := []conf{
+			{variant: va, n: 1 + r%3, capa: farCap, vmul: 1, voff: r},
+			{variant: vb, n: []int{0, 2, 7, 64}[r%4], capa: farCap, vmul: 1, voff: r + 1},
+			{variant: va, n: 1 + (r+1)%3, capa: farCap, vmul: 0, voff: r},
+		}
+		var ss []store
+		var logs [][]tr.E
+		for _, c := range cs {
+			s, note := newStoreC(c)
+			if s == nil {
+				w.Emit(c.reset("map", "interleaved", 1, 0))
+				w.Emit(tr.E{"ev": "panic", "where": "constructor", "note": note})
+				continue
+			}
+			ss = append(ss, s)
+			logs = append(logs, []tr.E{c.reset("map", "interleaved", 1, 0)})
+		}
+		x := isX(va) || isX(vb)
+		pool := make([]key, 4)
+		for j := range pool {
+			pool[j] = schemeKey([]int{0, 3, 9, 2}[r%4], j+1, 3, x)
+		}
+		for i := 0; i < 30; i++ {
+			k := pool[rng.Intn(len(pool))]
+			op := []string{"set", "set", "get", "exist", "del"}[rng.Intn(5)]
+			v := 1 + rng.Intn(50)
+			for j, s := range ss {
+				if rng.Intn(4) == 0 {
+					continue // not every container sees every call: their contents drift apart
+				}
+				rec, rep := call(s, op, k, v, i%2 == 1)
+				logs[j] = append(logs[j], tr.E{"ev": "call", "a": rec, "r": rep})
+			}
+		}
+		for _, l := range logs {
+			for _, e := range l {
+				w.Emit(e)
+			}
+		}
+	}
+}
+
 func readPlan(path string) []act {
 	f, err := os.Open(path)
 	if err != nil {
@@ -1378,6 +1663,9 @@ func main() {
 	nrace := flag.Int("nrace", 3000, "race rounds to run at most")
 	nracekeep := flag.Int("nracekeep", 1200, "race rounds (with real overlap) to keep at most")
 	nroutecold := flag.Int("nroutecold", 150, "cold-start routing rounds")
+	nneigh := flag.Int("nneigh", 2, "shard counts next to powers of two per run")
+	nmix := flag.Int("nmix", 10, "interleaved-configuration rounds")
+	longmax := flag.Int("longmax", 6, "how many of the run lengths 255..65537 to use")
 	pressure := flag.String("pressure", "pressure.ndjson", "capacity-pressure traces (LRU_Trace format)")
 	npress := flag.Int("npress", 240, "capacity-pressure histories")
 	flag.Parse()
@@ -1389,6 +1677,13 @@ func main() {
 	for i := 0; i < *nextra; i++ {
 		counts = append(counts, 1+rng.Intn(5000))
 	}
+	// neighbours of the powers of two and of the default prime (some per run)
+	neigh := []int{63, 65, 72, 74, 257, 4095, 4097, 65537}
+	rng.Shuffle(len(neigh), func(i, j int) { neigh[i], neigh[j] = neigh[j], neigh[i] })
+	if *nneigh < len(neigh) {
+		neigh = neigh[:*nneigh]
+	}
+	counts = append(counts, neigh...)
 
 	go watchdog()
 
@@ -1400,6 +1695,14 @@ func main() {
 		nev += routeTrace(w, rng, n, *nrand, "prime")
 	}
 	ncold := routeRaces(w, rng, *nroutecold)
+	routeInterleaved(w, rng, *nmix)
+	lens := runLens
+	if *longmax < len(lens) {
+		lens = lens[:*longmax]
+	}
+	for _, n := range []int{1, 73, 256} {
+		routeLong(w, rng, n, lens)
+	}
 
 	curW.Store(mw)
 	small := []int{1, 2, 3, 4, 7, 64, 73, 211, 1000}
@@ -1432,7 +1735,7 @@ func main() {
 			base := filepath.Base(f)
 			third := []string{"single", "lru", "lrux", "tiny", "tinyx"}[i%5]
 			for j, v := range []string{"wide", "widex", third} {
-				c := conf{variant: v, n: n, vmul: i % 2, voff: i/2 + j}
+				c := conf{variant: v, n: n, vmul: i % 3, voff: i/3 + j}
 				c.capa = capOf(i, c.shards())
 				runPlan(mw, "plan:"+base, c, (i+3*j)%nSchemes, p[1:])
 			}
@@ -1447,9 +1750,13 @@ func main() {
 		if i%11 == 5 {
 			n = 0
 		}
-		c := conf{variant: v, n: n, vmul: (i / 7) % 2, voff: rng.Intn(nMapKinds * nLRUKinds)}
+		c := conf{variant: v, n: n, vmul: (i / 7) % 3, voff: rng.Intn(nMapKinds * nLRUKinds)}
 		c.capa = capOf(i/7, c.shards())
 		runRandom(mw, rng, c, 10+rng.Intn(*maxops))
+	}
+	mapsInterleaved(mw, rng, *nmix)
+	for i, v := range []string{"wide", "widex", "lru", "lrux", "tiny", "tinyx"} {
+		runLong(mw, rng, conf{variant: v, n: []int{1, 2, 0}[i%3], capa: farCap, vmul: i % 2, voff: i}, lens)
 	}
 	// the edges of every constructor argument, each time: shard count 1, 2, none given; capacity 0, 1,
 	// around the shard count, top of int64
